@@ -18,9 +18,12 @@ a child below min_points, a cluster below min_points is never split, predict in 
     behaviour's oracle, for any call, in any order, any number of times (a cluster the specification
     never consulted gets an adversarial default).  Nothing is asserted about the PROTOCOL (call order,
     call counts, which instances are asked, final per-cluster fits, message wording); what the property
-    states is compared: n_clusters_ = K <= cap, labels_ = the specification's labelling, the accepted
-    splits if the verbose output can be parsed, predict / predict_proba ranges and centre queries
-    (never an exact tie: scripted centres are >= 12.5 sigma apart), also on refits of one object.
+    states is compared: n_clusters_ = K <= cap, labels_ = the specification's labelling AS A PARTITION
+    (up to the relabelling pi: spec label -> code label, which must be a bijection on [0,K) - the
+    numbering of the clusters is free), the accepted splits if the verbose output can be parsed (parent
+    positions only when pi is the identity), predict / predict_proba ranges and centre queries
+    (predict at the centre of spec cluster j gives pi(j); never an exact tie: scripted centres are
+    >= 12.5 sigma apart), also on refits of one object.
     Children >= min_points and "small clusters are never split" follow from the equality with the
     specification's labelling, whose invariants TLC checks.
   * Binding A: real fits on seeded generated data with a logging subclass of GaussianMixture installed
@@ -28,7 +31,8 @@ a child below min_points, a cluster below min_points is never split, predict in 
     the observed oracle is built as a function of the cluster (order ranks of improvement / threshold,
     child labels where a partition was produced) and handed to TLC as data; HGMTrace.tla (which
     conjoins the original HGMSplit actions) runs the specification deterministically with it and
-    compares its K / labelling / accepted splits / prediction range with the outcome of the fit
+    compares its K / labelling (as a partition, up to a relabelling) / accepted splits / prediction
+    range with the outcome of the fit
     (total verdicts with the failing clause named).  A specification run that needs an oracle value
     the code never computed is INCONCLUSIVE (counted); observed answers that differ for the same data
     set are reported as information.
@@ -254,6 +258,25 @@ def make_fake(script):
     return FakeGaussianMixture
 
 
+def relabelling(want, got, K):
+    """The permutation pi (spec label -> code label) under which the code's labelling IS the specification's partition, or
+    (None, reason): every label must lie in [0, K), every spec cluster must map to exactly one code label and vice versa
+    (otherwise clusters were merged / split, or a point is unlabelled)."""
+    if len(got) != len(want):
+        return None, f"{len(got)} labels for {len(want)} points"
+    pi = {}
+    for p, (a, b) in enumerate(zip(want, got)):
+        if not 0 <= b < K:
+            return None, f"point {p + 1} has label {b} outside [0, {K})"
+        if pi.setdefault(a, b) != b:
+            return None, f"spec cluster {a} is split over the code labels {pi[a]} and {b}"
+    if len(set(pi.values())) != len(pi):
+        return None, "two spec clusters are merged under one code label"
+    if sorted(pi) != list(range(K)):
+        return None, f"spec labels {sorted(pi)} for K={K}"
+    return [pi[j] for j in range(K)], ""
+
+
 def _js_state(v):
     """JSON-able copy of a state component (the oracle is a function with set-valued keys)."""
     if isinstance(v, dict) and any(isinstance(k, (frozenset, set, tuple)) for k in v):
@@ -373,17 +396,24 @@ def replay_state(ck, np, cluster, st, variant, predicted_tbl, stats, history=Non
         for k_, v_ in sc.calls.items():
             stats["calls_" + k_] = stats.get("calls_" + k_, 0) + v_
         got_labels = [int(x) for x in np.asarray(hgm.labels_).ravel()]
+        # the property fixes the PARTITION, not the numbering of the clusters: pi = the relabelling spec label -> code label
+        pi, why = relabelling(want_labels, got_labels, K)
         bad = None
         if hgm.n_clusters_ != K:
             bad = ("replayB:n-clusters", f"n_clusters_={hgm.n_clusters_}, spec K={K}")
         elif hgm.n_clusters_ > mi + 1:
             bad = ("replayB:cap", f"n_clusters_={hgm.n_clusters_} exceeds cap {mi + 1}")
-        elif got_labels != want_labels:
-            bad = ("replayB:labels", f"labels_={got_labels}, spec {want_labels}")
-        elif parsed and got_splits != want_splits:
+        elif pi is None:
+            bad = ("replayB:labels", f"labels_={got_labels} is not the specification's partition {want_labels} up to a relabelling: {why}")
+        elif parsed and pi == list(range(K)) and got_splits != want_splits:
             bad = ("replayB:accepted-splits", f"accepted (iteration, parent) {got_splits}, spec {want_splits}")
+        elif parsed and [it for it, _ in got_splits] != [it for it, _ in want_splits]:
+            # the printed parent positions depend on the numbering: with another numbering only the iterations are compared
+            bad = ("replayB:accepted-splits", f"splits accepted in iterations {[it for it, _ in got_splits]}, spec {[it for it, _ in want_splits]}")
         if parsed:
             stats["splits_compared"] = stats.get("splits_compared", 0) + 1
+        if pi is not None and pi != list(range(K)):
+            stats["relabelled"] = stats.get("relabelled", 0) + 1
         if bad:
             ck.violation(bad[0], bad[1], rep)
             return
@@ -392,11 +422,14 @@ def replay_state(ck, np, cluster, st, variant, predicted_tbl, stats, history=Non
         # ---- predictions
         ckey = tuple(clusters)
         centres_exact = (ctype == "full" or d == 1) and all(len(c) >= d for c in clusters)
-        centres = np.array(hgm.cluster_centers_, dtype=float).reshape(K, d)
+        # centre of spec cluster j := its lowest-numbered point (what the fake reports as the mean of that cluster); predict
+        # there must give pi(j).  The code's own cluster_centers_ are queried too, for the range only.
+        centres = X[[min(c) - 1 for c in clusters]]
+        own = np.array(hgm.cluster_centers_, dtype=float).reshape(-1, d)
         lo, hi = X.min(axis=0), X.max(axis=0)
         corners = np.array(list(itertools.product(*[(lo[j], hi[j]) for j in range(d)])))
         unit_corners = np.array(list(itertools.product(*[(0.0, 1.0)] * d)))
-        anyq = np.vstack([X, X[:1], X[:1], corners, unit_corners, np.full((1, d), 1e6), np.full((1, d), -1e6),
+        anyq = np.vstack([own, X, X[:1], X[:1], corners, unit_corners, np.full((1, d), 1e6), np.full((1, d), -1e6),
                           np.full((1, d), 1e300), np.zeros((1, d)), 0.5 * (lo + hi)[None, :]])
         covs = ["good"] + ([["nan", "negdef", "zero"][(variant // 3) % 3]] if variant % 3 == 0 else [])
         if not predict:     # light replay (quick tier, deep job): the decisions of fit() only
@@ -440,12 +473,14 @@ def replay_state(ck, np, cluster, st, variant, predicted_tbl, stats, history=Non
                     allowed = predicted_tbl.get((ckey, "centre", i))
                     if allowed is None:
                         raise RuntimeError(f"spec has no Predict state for clusters {ckey} centre {i}")
+                    allowed = {pi[a] for a in allowed}
                     stats["centre_exact"] += 1
                 else:
                     allowed = any_allowed
                 if g not in allowed:
                     key = "replayB:predict-range" if not (0 <= g < K) else "replayB:predict-centre-label"
-                    ck.violation(key, f"predict({Q[i].tolist()}) = {g}, spec allows {sorted(allowed)} (K={K}, {kind} query, cov {cv})",
+                    ck.violation(key, f"predict({Q[i].tolist()}) = {g}, spec allows {sorted(allowed)} in the code's numbering (spec label -> code label "
+                                      f"{pi}; K={K}, {kind} query, cov {cv})",
                                  dict(rep, query=Q[i].tolist()))
                     return
         if history is not None:
@@ -516,30 +551,6 @@ def _lower_position_wins(st):
             if e["it"] == sp["it"] and e["pos"] > sp["parent"] and e["imp"] >= 2 and e["imp"] > e["thr"]:
                 if any(s2["it"] > sp["it"] and s2["ids"] == e["ids"] for s2 in st["splits"]):
                     return True
-    return False
-
-
-def _trace_lower_position_wins(t):
-    """Real fit (observed oracle + outcome): in some pass two clusters qualify, the lower-positioned one is split and the other
-    one is split in a later pass - read off the accepted splits and the observed oracle."""
-    if not t["hasSplits"] or len(t["splits"]) < 3:
-        return False
-    orc = {e["ids"]: e for e in t["orc"]}
-    clusters = [frozenset(range(1, t["n"] + 1))]
-    hist = []
-    for it, parent in t["splits"]:
-        if not 1 <= parent <= len(clusters) or clusters[parent - 1] not in orc or not orc[clusters[parent - 1]]["known"]:
-            return False
-        C = clusters[parent - 1]
-        hist.append((list(clusters), parent, C))
-        c1 = orc[C]["c1"]
-        clusters = clusters[:parent - 1] + clusters[parent:] + [c1, C - c1]
-    for a, (cl, parent, C) in enumerate(hist):
-        for pos in range(parent + 1, len(cl) + 1):
-            D = cl[pos - 1]
-            e = orc.get(D)
-            if e is not None and e["known"] and e["imp"] > e["thr"] and any(C2 == D for _, _, C2 in hist[a + 1:]):
-                return True
     return False
 
 
@@ -1126,7 +1137,7 @@ CONSTANTS
   LowKinds = {"thr"}
   Variant = "intended"
 """ + "".join(f"INVARIANT {i}\n" for i in TRACE_INV) + "CHECK_DEADLOCK FALSE\n"
-_VERDICT = re.compile(r'^<<"VERDICT", (\d+), "([^"]+)">>', re.M)
+_VERDICT = re.compile(r'^<<"VERDICT", (\d+), "([^"]+)", (TRUE|FALSE), (TRUE|FALSE)>>', re.M)
 
 
 def trace_module(traces):
@@ -1165,9 +1176,10 @@ def validate_batch(traces):
             continue
         if res.status != "ok":
             raise RuntimeError("HGMTrace: unexpected TLC verdict\n" + res.stdout[-2000:])
-        got = {}
+        got, flags = {}, {}
         for m in _VERDICT.finditer(res.stdout):
             got.setdefault(int(m.group(1)), set()).add(m.group(2))
+            flags[int(m.group(1))] = {"lower_position_wins": m.group(3) == "TRUE", "relabelled": m.group(4) == "TRUE"}
         res.cleanup()
         for pos, i in enumerate(alive, start=1):
             vs = got.get(pos, set())
@@ -1175,7 +1187,7 @@ def validate_batch(traces):
                 raise RuntimeError(f"trace validation: {len(vs)} verdicts for trace {pos} of the batch ({sorted(vs)})")
             v = next(iter(vs))
             if v == "accepted":
-                verdicts[i] = ("accepted",)
+                verdicts[i] = ("accepted", flags[pos])
             elif v.startswith("inconclusive:"):
                 verdicts[i] = ("inconclusive", v.split(":", 1)[1])
             else:
@@ -1574,6 +1586,12 @@ def corrupt_traces(trace):
     out.append(("K+1", dict(trace, K=K + 1), {"n-clusters"}))
     l2 = list(lab); l2[0] = (lab[0] + 1) % max(K, 2)
     out.append(("one label changed", dict(trace, labels=tuple(l2)), {"labels"}))
+    if K >= 2:
+        # the numbering of the clusters is free: the same partition under another numbering must be ACCEPTED (printed parent
+        # positions are then not compared), a merge of two clusters under one label must not
+        sw = {0: 1, 1: 0}
+        out.append(("labels 0 and 1 exchanged everywhere", dict(trace, labels=tuple(sw.get(x, x) for x in lab)), {"accepted"}))
+        out.append(("clusters 0 and 1 merged under label 0", dict(trace, labels=tuple(0 if x == 1 else x for x in lab)), {"labels"}))
     out.append(("predicted label = K", dict(trace, preds=frozenset(trace["preds"]) | {K}), {"predict-range"}))
     if K >= 2:
         out.append(("cap lowered below K", dict(trace, maxIter=max(K - 2, 0)), REJ))
@@ -1761,7 +1779,7 @@ def main():
     mon_checked = []
     real_summ = {"fits_run": len(real), "gm_fits": 0, "with_split": 0, "oracle_entries": 0, "partitions": 0, "queries": 0,
                  "max_K": 0, "wall_s_sum": 0.0, "by_kind": {}, "by_wkind": {}, "splits_parsed_from_verbose_output": 0,
-                 "two_level_lower_position_wins": 0,
+                 "two_level_lower_position_wins": 0, "accepted_up_to_a_relabelling_of_the_clusters": 0,
                  "info:observed_inconsistent (same data set, different answers)": {"improvement": 0, "partition": 0, "threshold": 0},
                  "info:root_data_set_not_observed": 0, "info:matched_by_row_multiset": 0}
     for o in real:
@@ -1848,8 +1866,10 @@ def main():
                 real_summ["splits_parsed_from_verbose_output"] += 1 if s["splits_parsed"] else 0
                 if s["K"] > 1:
                     real_summ["with_split"] += 1
-                if _trace_lower_position_wins(traces[i]):
+                if v[1]["lower_position_wins"]:
                     real_summ["two_level_lower_position_wins"] += 1
+                if v[1]["relabelled"]:
+                    real_summ["accepted_up_to_a_relabelling_of_the_clusters"] += 1
                 real_summ["by_kind"][o["cfg"]["kind"]] = real_summ["by_kind"].get(o["cfg"]["kind"], 0) + 1
                 real_summ["by_wkind"][o["cfg"]["wkind"]] = real_summ["by_wkind"].get(o["cfg"]["wkind"], 0) + 1
                 if s["K"] > 1 and sum(1 for x in ck.samples if x.get("binding") == "A") < 2:
@@ -1865,7 +1885,7 @@ def main():
                 sizes = sorted((t["labels"].count(k_) for k_ in set(t["labels"])), reverse=True)
                 ck.violation("traceA:" + v[1],
                              f"outcome of a real fit differs from HGMSplit run with the fit's own observed oracle: clause {v[1]} "
-                             f"(code: n_clusters_={t['K']}, label counts {sizes[:8]}, labels outside [0,K): "
+                             f"(labels are compared as a partition, up to a relabelling of the clusters; code: n_clusters_={t['K']}, label counts {sizes[:8]}, labels outside [0,K): "
                              f"{sum(1 for x in t['labels'] if not 0 <= x < t['K'])}, accepted splits {list(t['splits'])[:6] if t['hasSplits'] else 'not parsed'}, "
                              f"predicted labels {sorted(t['preds'])[:8]}; cap={t['maxIter'] + 1} minPts={t['minPts']}; {len(t['orc'])} clusters in the observed "
                              f"oracle) ({o['cfg']})",
@@ -1933,6 +1953,11 @@ def main():
         "bindingB_behaviours_consulting_a_cluster_in_two_passes": stats["reevaluated"],
         "bindingB_behaviours_lower_position_wins_then_other_split": stats["lower_position_wins"],
         "bindingB_replays_with_parsed_split_messages": stats.get("splits_compared", 0),
+        "bindingB_replays_accepted_up_to_a_relabelling": stats.get("relabelled", 0),
+        "labelling_comparison": "as a PARTITION: the relabelling pi (spec label -> code label) is derived from labels_ and must be a bijection on "
+                                "[0, K) (a label outside [0, K), a spec cluster spread over two labels or two spec clusters under one label is a "
+                                "violation); centre queries expect pi(j); printed parent positions of accepted splits are compared only when pi is "
+                                "the identity (otherwise the iterations only)",
         "bindingB_fake_calls": {k[6:]: v for k, v in sorted(stats.items()) if k.startswith("calls_")},
         "bindingA_real_fits": real_summ,
         "bindingA_traces_accepted_by_TLC": accepted,
@@ -1960,7 +1985,8 @@ def main():
         "phase_wall_s": phase,
     }
     if os.environ.get("C15_TIMING"):
-        print("phases:", phase, {g["name"]: (g["tlc_wall_s"], g.get("terminal_states")) for g in gen_info}, flush=True)
+        print("phases:", phase, {g["name"]: (g["tlc_wall_s"], g.get("terminal_states")) for g in gen_info},
+              "relabelled B/A:", stats.get("relabelled", 0), real_summ["accepted_up_to_a_relabelling_of_the_clusters"], flush=True)
     for k, v in sorted(mon_keys.items()):
         cov[k] = v
     ck.finish(cov)
